@@ -1548,78 +1548,87 @@ func checkRecorderReset(w *World, c *simCtx, fn *ssa.Function, stateF, colorF, s
 	if err != nil {
 		return false, ""
 	}
-	okLoop := false
-	for _, p := range paths {
-		if p.End != "backedge" {
-			continue
-		}
-		var st, co *Event
-		for i := range p.Events {
-			e := &p.Events[i]
-			if e.Kind == "store" && e.LV.Op == "elem" {
-				if _, ok := selOf(e.LV.A[0], stateF); ok {
-					st = e
-				}
-				if _, ok := selOf(e.LV.A[0], colorF); ok {
-					co = e
-				}
-			}
-		}
-		if st == nil || co == nil {
-			continue
-		}
-		// both stores at the same index i = L + d, L the loop counter
-		ix := stripConv(st.LV.A[1])
-		li := linearOf(ix)
-		var lv *T
-		for k, at := range li.Atom {
-			if at.Op == "loopvar" && li.Coef[k] == 1 && len(li.Atom) == 1 {
-				lv = at
-			}
-		}
-		if !(st.Val.IsConstVal(cs["CoreEmpty"]) && co.Val.IsConstVal(-1) && lv != nil && sameTerm(st.LV.A[1], co.LV.A[1])) {
-			return false, "recorder reset stores " + st.Val.Show() + "/" + co.Val.Show() + " instead of (CoreEmpty, -1) at one running index"
-		}
-		// which header phi is the counter
-		phiIdx := -1
-		n := 0
-		for _, in := range fn.Blocks[int(lv.C)].Instrs {
-			if ph, ok := in.(*ssa.Phi); ok {
-				if ph.Comment == lv.S {
-					phiIdx = n
-				}
-				n++
-			}
-		}
-		init0, step1 := false, false
-		for _, e := range p.Events {
-			if e.Kind == "enterloop" && int(e.Res.C) == int(lv.C) && phiIdx >= 0 && phiIdx < len(e.Args) && e.Args[phiIdx].IsConst() {
-				init0 = e.Args[phiIdx].C+li.Const == 0 // the first index is 0
-			}
-			if e.Kind == "backedge" && int(e.Res.C) == int(lv.C) && phiIdx >= 0 && phiIdx < len(e.Args) {
-				l := linearOf(e.Args[phiIdx])
-				step1 = l.Const == 1 && len(l.Coef) == 1 && l.Coef[lv.Show()] == 1
-			}
-		}
-		bound := hasCond(p, func(a *T, v bool) bool {
-			if a.Op == "lt" && v && sameTerm(a.A[0], ix) {
-				if _, ok := selOf(a.A[1], sizeF); ok {
-					return true
-				}
-				if l := stripConv(a.A[1]); l.Op == "len" {
-					_, ok1 := selOf(l.A[0], stateF)
-					_, ok2 := selOf(l.A[0], colorF)
-					return ok1 || ok2 // every recorder array has coresize elements
+	// each of the two arrays is set to its empty value over the whole core: by a
+	// store in a loop that sweeps 0 .. coresize-1, or by clear() when that value is zero
+	sweepOf := func(field string, want int64) (found, good bool, msg string) {
+		for _, p := range paths {
+			for i := range p.Events {
+				e := &p.Events[i]
+				if e.Kind == "builtin" && e.Method == "clear" && len(e.Args) == 1 {
+					if _, ok := selOf(e.Args[0], field); ok {
+						found = true
+						if want == 0 {
+							good = true
+						} else {
+							msg = "recorder reset zeroes " + field + " although its empty value is not zero"
+						}
+					}
 				}
 			}
-			return false
-		})
-		if !(init0 && step1 && bound) {
-			return false, "recorder reset loop does not run over every address 0 .. coresize-1"
+			if p.End != "backedge" {
+				continue
+			}
+			var st *Event
+			for i := range p.Events {
+				e := &p.Events[i]
+				if e.Kind == "store" && e.LV.Op == "elem" {
+					if _, ok := selOf(e.LV.A[0], field); ok {
+						st = e
+					}
+				}
+			}
+			if st == nil {
+				continue
+			}
+			found = true
+			ix := stripConv(st.LV.A[1])
+			li := linearOf(ix)
+			var lv *T
+			for k, at := range li.Atom {
+				if at.Op == "loopvar" && li.Coef[k] == 1 && len(li.Atom) == 1 {
+					lv = at
+				}
+			}
+			if !st.Val.IsConstVal(want) || lv == nil {
+				return true, false, "recorder reset stores " + st.Val.Show() + " into " + field + " instead of its empty value at a running index"
+			}
+			init, step, ok := loopVarInfo(w, fn, p, lv)
+			first0 := ok && init.IsConst() && init.C+li.Const == 0
+			bound := hasCond(p, func(a *T, v bool) bool {
+				if a.Op == "lt" && v && sameTerm(a.A[0], ix) {
+					if _, ok := selOf(a.A[1], sizeF); ok {
+						return true
+					}
+					if l := stripConv(a.A[1]); l.Op == "len" {
+						_, ok1 := selOf(l.A[0], stateF)
+						_, ok2 := selOf(l.A[0], colorF)
+						return ok1 || ok2 // every recorder array has coresize elements
+					}
+				}
+				return false
+			})
+			if !(first0 && step == 1 && bound) {
+				return true, false, "recorder reset loop does not run over every address 0 .. coresize-1"
+			}
+			good = true
 		}
-		okLoop = true
+		return
 	}
-	return okLoop, ""
+	f1, g1, m1 := sweepOf(stateF, cs["CoreEmpty"])
+	f2, g2, m2 := sweepOf(colorF, -1)
+	if !f1 && !f2 {
+		return false, "" // not the reset routine
+	}
+	if m1 != "" {
+		return false, m1
+	}
+	if m2 != "" {
+		return false, m2
+	}
+	if !(g1 && g2) {
+		return false, "recorder reset does not set both the state and the owner of every cell to empty"
+	}
+	return true, ""
 }
 
 func ruleRefusePure(w *World, r *RuleResult) {
